@@ -1,0 +1,12 @@
+//go:build verif
+
+// Contracts for package assertion (machine-checked by /verif/engine; comment-only file).
+package assertion
+
+// CompareBalance: two balances tie only if they name the same account (type and name), the same
+// commodity name and the same quantity - such balances print identically.
+//@ func CompareBalance
+//@   requires x.Account != nil && y.Account != nil && x.Commodity != nil && y.Commodity != nil
+//@   requires @interned: (x.Account != y.Account ==> acctCmp(x.Account, y.Account) != 0) && (x.Commodity != y.Commodity ==> comCmp(x.Commodity, y.Commodity) != 0)
+//@   ensures [C06] 0 - 1 <= result && result <= 1
+//@   ensures [C06] @tie: result == 0 ==> acctCmp(x.Account, y.Account) == 0 && comCmp(x.Commodity, y.Commodity) == 0 && x.Quantity == y.Quantity
